@@ -7,6 +7,10 @@ From Tx Require ReplayDetector.Model ReplayDetector.Spec.
 From Tx Require PacketIO.Model PacketIO.Spec.
 From Tx Require Xor.Model.
 From Tx Require Bridge.Model.
+From Tx Require Nat.Model Nat.Spec.
+From Tx Require Deadline.Model.
+From Tx Require Filters.Loss.
+From Tx Require VnetAddr.Model.
 
 (* entry points: a request is a list of sections, a section a list of integer lists *)
 Definition req := list (list zs).
@@ -60,8 +64,38 @@ Definition e_c18_model (r : req) : list zs :=
   | _ => []
   end.
 
+Definition e_nat_model (r : req) : list zs :=
+  match r with
+  | (conf :: _) :: ops :: _ => Nat.Model.nat_model_run conf ops
+  | _ => []
+  end.
+
+Definition e_nat_oracle (r : req) : list zs :=
+  match r with
+  | (conf :: _) :: ops :: observed :: _ => [Nat.Spec.nat_oracle conf ops observed]
+  | _ => []
+  end.
+
+Definition e_dl_model (r : req) : list zs :=
+  match r with
+  | (conf :: _) :: ops :: _ => Deadline.Model.deadline_run conf ops
+  | _ => []
+  end.
+
+Definition e_loss_model (r : req) : list zs :=
+  match r with
+  | (conf :: _) :: ops :: _ => Filters.Loss.loss_model_run conf ops
+  | _ => []
+  end.
+
+Definition e_c13_model (r : req) : list zs :=
+  match r with
+  | (conf :: _) :: ops :: _ => VnetAddr.Model.c13_run conf ops
+  | _ => []
+  end.
+
 Extraction Language OCaml.
 Extraction "extracted.ml" Z.add Z.mul Z.div_eucl Z.of_nat Z.to_nat
   e_rd_model e_rd_spec e_rd_oracle
   e_pio_model e_pio_spec e_pio_oracle
-  e_xor_model e_c18_model.
+  e_xor_model e_c18_model e_nat_model e_nat_oracle e_dl_model e_loss_model e_c13_model.
